@@ -1271,7 +1271,7 @@ def thread_compare(ctx, sc, clean, results, trace, out):
 
 
 def thread_stream(ctx, rng, drv, model_ok):
-    n = ctx.n(120, 2500) * (2 if getattr(ctx, "search_boost", False) else 1)
+    n = ctx.n(100, 2500) * (2 if getattr(ctx, "search_boost", False) else 1)
     scs = [W_THREADS] + [gen_thread_scenario(rng) for _ in range(n)]
     done = []
     for sc in scs:
@@ -1921,7 +1921,7 @@ def _run(ctx):
             file_expect.append((entry["scenario"], entry["expected"][0], entry["expected"][1]))
     for tag, sc in fixed:
         scenarios.append((tag, sc))
-    n = ctx.n(10000, 130000) * boost
+    n = ctx.n(9000, 130000) * boost
     for _ in range(n):
         scenarios.append(("random", gen_scenario(rng)))
     if not ctx.quick:
